@@ -3,11 +3,11 @@
 set -e
 cd "$(dirname "$0")"
 export CARGO_NET_OFFLINE=true
-(cd lean && lake build TonicModel driver)
+(cd lean && lake build TonicModel driver </dev/null)
 # /repo/Cargo.lock is untracked there; the committed harness/Cargo.lock is the fallback
 [ -f ../repo/Cargo.lock ] && cp -f ../repo/Cargo.lock harness/Cargo.lock
-(cd harness && cargo build --offline)
+(cd harness && cargo build --offline </dev/null)
 for d in $(python3 -c "import json,glob;print(' '.join(sorted({c for f in glob.glob('props.d/*.json') for c in json.load(open(f)).get('extra_crates',[])})))"); do
   if [ -f ../repo/Cargo.lock ]; then cp -f ../repo/Cargo.lock $d/Cargo.lock; else cp -f harness/Cargo.lock $d/Cargo.lock; fi
-  (cd $d && cargo build --offline)
+  (cd $d && cargo build --offline </dev/null)
 done
